@@ -98,6 +98,9 @@ func (v TokenView) Judge(keys map[string][]byte, now, maxAge int64) (bool, strin
 		return false, "malformed: " + v.Err
 	}
 	kid, _ := v.Header["kid"].(string)
+	if kid == "" {
+		kid = "POOL" // HTCondor: a token naming no key was issued under the pool key
+	}
 	key, ok := keys[kid]
 	if !ok {
 		return false, fmt.Sprintf("unknown key id %q", kid)
